@@ -107,7 +107,7 @@ def _file_case(args):
         blackbird.load(path)
         out = ("PROGRAM",)
     except Exception as e:  # noqa
-        out = ("BSE",) if type(e).__name__ == "BlackbirdSyntaxError" else ("OTHER", type(e).__name__, str(e)[:120])
+        out = ("BSE",) if type(e).__name__ == "BlackbirdSyntaxError" else ("OTHER", type(e).__name__, str(e).replace(d, "<D>")[:120])
     finally:
         os.unlink(path)
     if m[0] == "OK":
